@@ -1,51 +1,1381 @@
-use serde_saphyr::Options;
-fn opts(on: bool) -> Options {
-    let mut o = Options::default();
-    #[allow(deprecated)]
-    {
-        o.angle_conversions = on;
-    }
-    o
+//! C19 — robotics expressions evaluate totally and exactly; plain numbers are
+//! unchanged; nothing changes unless the option is switched on.
+//!
+//! Oracles
+//!  1. independent reference model (refeval.rs: tokenizer + precedence parser +
+//!     evaluator over sets of admissible IEEE results) against
+//!     `from_str_with_options::<f64|f32>` with `angle_conversions = true`:
+//!     accepted expressions bit-exact, documented error classes rejected,
+//!     undocumented classes counted as unspecified;
+//!  2. differential on the real code: every ordinary float literal (corpus +
+//!     double-rounding witnesses) with the option on vs off, targets f32/f64/untyped;
+//!  3. cross-build differential: the corpus dumped by `c19nr` (serde-saphyr built
+//!     without the `robotics` feature; option off and on) vs this binary with the
+//!     option off;
+//!  4. invariants: no panic, thread CPU time within 10^4 x typical, no stack
+//!     exhaustion in an 8 MiB child for deep / long inputs.
+
+mod corpus;
+mod doc;
+#[path = "../../c19nr/src/dump.rs"]
+mod dump;
+mod exprgen;
+mod refeval;
+
+use doc::{Ctx, build, mk_opts};
+use refeval::{Ast, MAX_DEPTH, SURE_DEPTH, Tag, Verdict, f32_cands, matches32, matches64, paren_depth, reference};
+use serde_json::{Value, json};
+use std::collections::{BTreeMap, BTreeSet};
+use std::path::PathBuf;
+use vcore::obs::{catch, panic_site, thread_cpu_s};
+use vcore::rng::{Rng, fnv_parts};
+use vcore::run::{Finish, Run, Tier, par_range};
+
+// ------------------------------------------------------------------ local accumulators
+
+#[derive(Default)]
+struct Local {
+    counts: BTreeMap<String, u64>,
+    sets: BTreeMap<&'static str, BTreeSet<String>>,
 }
-fn main() {
-    for s in [
-        "1.00000005960464477539062500000000000001",
-        "3.4028235677973366163753939545814256e38",
-        "3.4028235677973366e38",
-        "!degrees 180",
-        "!!float 2*pi",
-        "!!str 2*pi",
-        "!foo 2*pi",
-        "!!timestamp 1:30",
-        "\" 1.5 \"",
-        "-.nan",
-        "infinity",
-        "deg(deg(180))",
-        "!degrees deg(90)*2",
-        "1:30",
-        "!radians 1:30",
-        "rad(1:30)",
-        "|\n 1 +\n 2\n",
-        ">\n 1 +\n 2\n",
-        "'1 + 2'",
-        "1 + 2 # c",
-        ".aa\u{e9}",
-        "1\u{e9}\u{e9}",
-    ] {
-        for on in [false, true] {
-            let a = vcore::obs::catch(|| serde_saphyr::from_str_with_options::<f32>(s, opts(on)));
-            let b = vcore::obs::catch(|| serde_saphyr::from_str_with_options::<f64>(s, opts(on)));
-            let sa = match a {
-                Ok(Ok(v)) => format!("{:08x} {v:e}", v.to_bits()),
-                Ok(Err(e)) => format!("ERR {}", vcore::errs::kind(&e)),
-                Err(p) => format!("PANIC {p}"),
-            };
-            let sb = match b {
-                Ok(Ok(v)) => format!("{:016x} {v:e}", v.to_bits()),
-                Ok(Err(e)) => format!("ERR {} {}", vcore::errs::kind(&e), e.to_string().replace('\n', "\\n")),
-                Err(p) => format!("PANIC {p}"),
-            };
-            println!("{s:?} on={on}: f32={sa} | f64={sb}");
+
+impl Local {
+    fn count(&mut self, k: &str) {
+        self.add(k, 1);
+    }
+    fn add(&mut self, k: &str, n: u64) {
+        if let Some(v) = self.counts.get_mut(k) {
+            *v += n;
+        } else {
+            self.counts.insert(k.to_string(), n);
         }
     }
+    fn observe(&mut self, set: &'static str, v: String) {
+        let s = self.sets.entry(set).or_default();
+        if s.len() < 200 {
+            s.insert(v);
+        }
+    }
+    fn flush(self, run: &Run) {
+        for (k, v) in self.counts {
+            run.count(&k, v);
+        }
+        for (set, vs) in self.sets {
+            for v in vs {
+                run.observe(set, &v);
+            }
+        }
+    }
+}
+
+/// `par_range` over chunks with one `Local` per chunk.
+fn par_chunks(run: &Run, n: usize, chunk: usize, f: impl Fn(usize, &mut Local) + Sync) {
+    let chunks = n.div_ceil(chunk.max(1));
+    par_range(chunks, |c| {
+        let mut l = Local::default();
+        let lo = c * chunk;
+        let hi = (lo + chunk).min(n);
+        for i in lo..hi {
+            f(i, &mut l);
+        }
+        l.flush(run);
+    });
+}
+
+// ------------------------------------------------------------------ violation throttle
+
+/// `Run::violation` keeps every distinct (signature, case) key and scans that set on each call;
+/// a change that breaks a whole class (millions of cases) would make that quadratic. Report at
+/// most `VIO_CAP` cases per signature and count the rest.
+const VIO_CAP: u64 = 40;
+static VIO_SEEN: std::sync::Mutex<BTreeMap<String, u64>> = std::sync::Mutex::new(BTreeMap::new());
+
+fn vio(run: &Run, sig: &str, case: Value, detail: impl Into<String>) {
+    let n = {
+        let mut m = VIO_SEEN.lock().unwrap();
+        let e = m.entry(sig.to_string()).or_insert(0);
+        *e += 1;
+        *e
+    };
+    if n <= VIO_CAP {
+        run.violation(sig, case, detail);
+    } else if n == VIO_CAP + 1 {
+        run.note(format!("more than {VIO_CAP} cases with signature {sig}: further ones are only counted"));
+    }
+}
+
+fn flush_violation_counts(run: &Run) {
+    for (sig, n) in VIO_SEEN.lock().unwrap().iter() {
+        run.count(&format!("violating_cases_seen/{sig}"), *n);
+    }
+}
+
+// ------------------------------------------------------------------ CPU calibration
+
+#[derive(Clone, Copy)]
+struct Calib {
+    base_s: f64,
+    per_byte_s: f64,
+}
+
+impl Calib {
+    fn typical(&self, n: usize) -> f64 {
+        self.base_s + self.per_byte_s * n as f64
+    }
+    /// a violation needs >= 10^4 x typical (and an absolute floor against timer noise)
+    fn hard(&self, n: usize) -> f64 {
+        (1e4 * self.typical(n)).max(0.25)
+    }
+    fn soft(&self, n: usize) -> f64 {
+        (1e3 * self.typical(n)).max(0.05)
+    }
+    fn measure() -> Calib {
+        let small = "1.5 + 2*(3 - 4/5)\n";
+        let t0 = thread_cpu_s();
+        let reps = 4000;
+        for _ in 0..reps {
+            let _ = serde_saphyr::from_str_with_options::<f64>(small, mk_opts(true, true));
+        }
+        let base = ((thread_cpu_s() - t0) / reps as f64).max(2e-7);
+        let mut big = String::from("\"");
+        while big.len() < 64 * 1024 {
+            big.push_str("1.5+2*(3-4/5)+");
+        }
+        big.push_str("1\"\n");
+        let mut best = f64::MAX;
+        for _ in 0..5 {
+            let t0 = thread_cpu_s();
+            let _ = serde_saphyr::from_str_with_options::<f64>(&big, mk_opts(true, true));
+            best = best.min(thread_cpu_s() - t0);
+        }
+        Calib { base_s: base, per_byte_s: (best / big.len() as f64).max(5e-10) }
+    }
+}
+
+// ------------------------------------------------------------------ library calls
+
+#[derive(Clone, Copy, Debug, PartialEq)]
+enum Target {
+    F64,
+    F32,
+}
+
+impl Target {
+    fn name(self) -> &'static str {
+        match self {
+            Target::F64 => "f64",
+            Target::F32 => "f32",
+        }
+    }
+}
+
+#[derive(Clone, Copy, Debug)]
+enum Num {
+    F64(f64),
+    F32(f32),
+}
+
+impl Num {
+    fn show(self) -> String {
+        match self {
+            Num::F64(v) => format!("{v:e} [{}]", dump::f64s(v)),
+            Num::F32(v) => format!("{v:e} [{}]", dump::f32s(v)),
+        }
+    }
+}
+
+fn lib_eval(docu: &str, ctx: Ctx, target: Target, on: bool, unlimited: bool) -> Result<Result<Num, serde_saphyr::Error>, String> {
+    catch(|| match target {
+        Target::F64 => doc::eval::<f64>(docu, ctx, mk_opts(on, unlimited)).map(Num::F64),
+        Target::F32 => doc::eval::<f32>(docu, ctx, mk_opts(on, unlimited)).map(Num::F32),
+    })
+}
+
+fn err_label(e: &serde_saphyr::Error) -> String {
+    let d = format!("{:?}", e.without_snippet());
+    let kind: String = d.chars().take_while(|c| c.is_ascii_alphanumeric() || *c == '_').collect();
+    if let Some(p) = d.find("msg: \"") {
+        let rest = &d[p + 6..];
+        let msg: String = rest.chars().take_while(|c| *c != '"').take(60).collect();
+        format!("{kind}: {msg}")
+    } else {
+        kind
+    }
+}
+
+// ------------------------------------------------------------------ expression cases
+
+struct ExprCase<'a> {
+    text: &'a str,
+    tag: Tag,
+    ctx: Ctx,
+    style: u8,
+    unlimited: bool,
+    /// label of the generator family (evidence only)
+    family: &'static str,
+}
+
+/// Lexical test for "has at least one operator / function / sexagesimal form".
+fn has_operator(text: &str) -> bool {
+    let t = text.trim();
+    let b = t.as_bytes();
+    for (i, c) in b.iter().enumerate() {
+        match c {
+            b'*' | b'/' | b'(' | b':' => return true,
+            b'+' | b'-' => {
+                if i > 0 && !matches!(b[i - 1], b'e' | b'E') && !b[..i].iter().all(|x| matches!(x, b'+' | b'-' | b' ')) {
+                    return true;
+                }
+            }
+            _ => {}
+        }
+    }
+    false
+}
+
+fn feature_class(ast: Option<&Ast>, tag: Tag) -> &'static str {
+    fn walk(a: &Ast, sexa: &mut bool, deg: &mut bool, rad: &mut bool) {
+        match a {
+            Ast::Sexa { .. } => *sexa = true,
+            Ast::Func(d, x) => {
+                if *d {
+                    *deg = true
+                } else {
+                    *rad = true
+                }
+                walk(x, sexa, deg, rad)
+            }
+            Ast::Neg(x) | Ast::Plus(x) | Ast::Paren(x) => walk(x, sexa, deg, rad),
+            Ast::Bin(_, x, y) => {
+                walk(x, sexa, deg, rad);
+                walk(y, sexa, deg, rad)
+            }
+            _ => {}
+        }
+    }
+    let (mut s, mut d, mut r) = (false, false, false);
+    if let Some(a) = ast {
+        walk(a, &mut s, &mut d, &mut r);
+    }
+    if s {
+        "sexagesimal"
+    } else if d {
+        "deg-function"
+    } else if r {
+        "rad-function"
+    } else if tag == Tag::Degrees {
+        "degrees-tag"
+    } else if tag == Tag::Radians {
+        "radians-tag"
+    } else if ast.is_some_and(|a| a.ops() > 0) {
+        "arithmetic"
+    } else {
+        "literal"
+    }
+}
+
+fn expr_case_json(c: &ExprCase, docu: &str, target: Target) -> Value {
+    json!({"kind": "expr", "text": c.text, "tag": c.tag.source(), "ctx": c.ctx.name(), "style": c.style,
+           "unlimited": c.unlimited, "target": target.name(), "doc": docu, "family": c.family})
+}
+
+/// Bounded-progress monitor around one library call; returns the outcome of the first run.
+fn timed<T>(run: &Run, calib: Option<&Calib>, n_bytes: usize, family: &str, case: impl Fn() -> Value, f: impl Fn() -> T) -> T {
+    let Some(cal) = calib else { return f() };
+    let t0 = thread_cpu_s();
+    let r = f();
+    let dt = thread_cpu_s() - t0;
+    run.max("cpu_max_us", (dt * 1e6) as u64);
+    let ratio = dt / cal.typical(n_bytes);
+    run.max("cpu_max_ratio_to_typical_x100", (ratio * 100.0) as u64);
+    if dt > cal.soft(n_bytes) {
+        // repeat: an algorithmic blow-up repeats, scheduler/hypervisor noise does not
+        let mut best = dt;
+        for _ in 0..2 {
+            let t0 = thread_cpu_s();
+            let _ = f();
+            best = best.min(thread_cpu_s() - t0);
+        }
+        if best > cal.hard(n_bytes) {
+            vio(run, 
+                &format!("C19:cpu-bound-exceeded:{family}"),
+                case(),
+                format!("thread CPU {best:.3}s for {n_bytes} bytes; typical {:.6}s; bound 10^4 x typical = {:.3}s", cal.typical(n_bytes), cal.hard(n_bytes)),
+            );
+        } else if best > cal.soft(n_bytes) {
+            run.inconclusive("cpu: above 10^3 x typical but below the 10^4 x bound");
+        }
+    }
+    r
+}
+
+fn check_expr(run: &Run, c: &ExprCase, calib: Option<&Calib>, l: &mut Local) {
+    let Some(docu) = build(c.text, c.tag, c.ctx, c.style) else {
+        run.inconclusive("generator-invalid: raw parser does not confirm the scalar document");
+        return;
+    };
+    let (verdict, ast) = if c.text.len() <= 4096 { reference(c.text, c.tag) } else { (Verdict::Unspec("too-long-for-reference"), None) };
+    let depth = paren_depth(c.text);
+    let op = has_operator(c.text);
+    for target in [Target::F64, Target::F32] {
+        run.eval();
+        let r = timed(run, calib, docu.len(), c.family, || expr_case_json(c, &docu, target), || lib_eval(&docu, c.ctx, target, true, c.unlimited));
+        let r = match r {
+            Err(p) => {
+                vio(run, &format!("C19:panic:{}", panic_site(&p)), expr_case_json(c, &docu, target), p);
+                continue;
+            }
+            Ok(r) => r,
+        };
+        if let Err(e) = &r {
+            l.observe("error_kinds", err_label(e));
+        }
+        let held = match (&verdict, &r) {
+            (Verdict::Unspec(class), _) => {
+                l.count(&format!("unspecified/{class}"));
+                l.count(if r.is_ok() { "unspecified_lib_ok" } else { "unspecified_lib_err" });
+                false
+            }
+            (Verdict::Value(c64), Ok(v)) => {
+                let a = ast.as_ref().unwrap();
+                let ok = match v {
+                    Num::F64(x) => matches64(c64, *x),
+                    Num::F32(x) => matches32(&f32_cands(a, c.tag, c64), *x),
+                };
+                if ok {
+                    l.count("value_held");
+                    if c64.len() > 1 {
+                        l.count("value_held_with_rounding_alternatives");
+                    }
+                    true
+                } else {
+                    let want: Vec<String> = match target {
+                        Target::F64 => c64.iter().map(|x| Num::F64(*x).show()).collect(),
+                        Target::F32 => f32_cands(a, c.tag, c64).iter().map(|x| Num::F32(*x).show()).collect(),
+                    };
+                    vio(run, 
+                        &format!("C19:value:{}:{}", target.name(), feature_class(ast.as_ref(), c.tag)),
+                        expr_case_json(c, &docu, target),
+                        format!("library {} ; reference admits {}", v.show(), want.join(" | ")),
+                    );
+                    false
+                }
+            }
+            (Verdict::Value(_), Err(e)) => {
+                if depth > SURE_DEPTH {
+                    l.count("unspecified/rejected-at-depth-65-to-256");
+                    false
+                } else {
+                    vio(run, 
+                        &format!("C19:rejected-valid:{}", feature_class(ast.as_ref(), c.tag)),
+                        expr_case_json(c, &docu, target),
+                        format!("reference evaluates the expression, library: {}", err_label(e)),
+                    );
+                    false
+                }
+            }
+            (Verdict::Reject(class), Ok(v)) => {
+                vio(run, 
+                    &format!("C19:accepted:{class}"),
+                    expr_case_json(c, &docu, target),
+                    format!("documented error class `{class}` but library returned {}", v.show()),
+                );
+                false
+            }
+            (Verdict::Reject(class), Err(_)) => {
+                l.count("reject_held");
+                l.count(&format!("reject_held/{class}"));
+                true
+            }
+        };
+        if held && op {
+            run.nontrivial(fnv_parts(&[docu.as_bytes(), target.name().as_bytes(), &[c.unlimited as u8]]));
+            l.count(&format!("nontrivial_by_family/{}", c.family));
+        }
+        if held && depth > 0 {
+            l.count(&format!("depth_bucket/{}", if depth <= 4 { "1-4" } else if depth <= SURE_DEPTH { "5-64" } else if depth <= MAX_DEPTH { "65-256" } else { ">256" }));
+        }
+    }
+}
+
+// ------------------------------------------------------------------ plain literals: option on vs off
+
+fn plain_case_json(text: &str, docu: &str, target: &str) -> Value {
+    json!({"kind": "plain", "text": text, "doc": docu, "target": target})
+}
+
+fn check_plain(run: &Run, text: &str, style: u8, witness: bool, l: &mut Local) {
+    let Some(docu) = build(text, Tag::None, Ctx::Root, style) else {
+        run.inconclusive("generator-invalid: raw parser does not confirm the scalar document");
+        return;
+    };
+    let unspec = corpus::unspecified_literal(text);
+    for target in ["f32", "f64", "any"] {
+        let f = |on: bool| match target {
+            "f32" => dump::dump_f32(&docu, on),
+            "f64" => dump::dump_f64(&docu, on),
+            _ => dump::dump_any(&docu, on),
+        };
+        run.evals(2);
+        let (off, on) = match catch(|| (f(false), f(true))) {
+            Ok(x) => x,
+            Err(p) => {
+                vio(run, &format!("C19:panic:{}", panic_site(&p)), plain_case_json(text, &docu, target), p);
+                continue;
+            }
+        };
+        if on == "PANIC" || off == "PANIC" {
+            // get the site
+            let p = catch(|| {
+                let _ = serde_saphyr::from_str_with_options::<dump::Any>(&docu, mk_opts(on == "PANIC", false));
+                let _ = serde_saphyr::from_str_with_options::<f64>(&docu, mk_opts(on == "PANIC", false));
+            })
+            .err()
+            .unwrap_or_else(|| "<panic> @ unknown:0:0".into());
+            vio(run, &format!("C19:panic:{}", panic_site(&p)), plain_case_json(text, &docu, target), p);
+            continue;
+        }
+        if !off.starts_with("ok:") {
+            l.count(if on.starts_with("ok:") { "plain/off_err_on_ok (extension syntax)" } else { "plain/both_err" });
+            continue;
+        }
+        if target == "any" && off.starts_with("ok:str:") {
+            // not a number without the extension
+            l.count("plain/untyped_string_without_extension");
+            continue;
+        }
+        if off == on {
+            l.count("plain/unchanged");
+            if witness {
+                run.nontrivial(fnv_parts(&[docu.as_bytes(), target.as_bytes(), b"plain"]));
+            }
+            continue;
+        }
+        if let Some(cl) = unspec {
+            l.count(&format!("unspecified/{cl}"));
+            continue;
+        }
+        let shape = if on.starts_with("ok:") { "ok-vs-ok" } else { "ok-vs-err" };
+        let mut sig = format!("C19:plain-literal-changed:{target}:{shape}");
+        if target == "f32"
+            && let Ok(v64) = text.trim().parse::<f64>()
+            && on == format!("ok:{}", dump::f32s(v64 as f32))
+        {
+            sig = "C19:plain-literal-changed:f32:double-rounding".into();
+        }
+        vio(run, &sig, plain_case_json(text, &docu, target), format!("option off: {off} ; option on: {on}"));
+    }
+}
+
+// ------------------------------------------------------------------ big / deep inputs
+
+#[derive(Clone, Debug, PartialEq)]
+enum BigExpect {
+    Fail,
+    Val(f64),
+    Any,
+}
+
+const BIG_FAMILIES: &[&str] = &[
+    "paren-open", "paren-balanced", "func-nest", "mul-nest", "sign-run", "sum-chain", "digits", "frac-digits", "exp-digits",
+    "sexa-deg-digits", "sexa-min-digits", "sexa-frac-digits", "underscore-digits", "ws-run", "ident-run", "dot-run", "colon-run",
+    "mixed-nest",
+];
+
+fn big_input(family: &str, n: usize) -> (String, BigExpect) {
+    let rep = |s: &str, n: usize| s.repeat(n);
+    let by_depth = |v: f64| if n <= SURE_DEPTH { BigExpect::Val(v) } else if n > MAX_DEPTH { BigExpect::Fail } else { BigExpect::Any };
+    match family {
+        "paren-open" => (format!("{}1", rep("(", n)), BigExpect::Fail),
+        "paren-balanced" => (format!("{}1{}", rep("(", n), rep(")", n)), by_depth(1.0)),
+        "func-nest" => (format!("{}1{}", rep("deg(", n), rep(")", n)), if n > MAX_DEPTH { BigExpect::Fail } else { BigExpect::Any }),
+        "mul-nest" => (format!("{}1{}", rep("2*(", n), rep(")", n)), by_depth(2f64.powi(n as i32))),
+        "mixed-nest" => (format!("{}1{}", rep("(1+rad(", n), rep("))", n)), if 2 * n > MAX_DEPTH { BigExpect::Fail } else { BigExpect::Any }),
+        "sign-run" => (format!("{}1", rep("-", n)), BigExpect::Val(if n % 2 == 1 { -1.0 } else { 1.0 })),
+        "sum-chain" => (format!("{}1", rep("1+", n)), BigExpect::Val((n + 1) as f64)),
+        "digits" => {
+            let t = rep("7", n);
+            let e = if n <= 1_000_000 { BigExpect::Val(t.parse().unwrap()) } else { BigExpect::Any };
+            (t, e)
+        }
+        "frac-digits" => {
+            let t = format!("0.{}", rep("3", n));
+            let e = if n < 1_000_000 { BigExpect::Val(t.parse().unwrap()) } else { BigExpect::Any };
+            (t, e)
+        }
+        "exp-digits" => (format!("1e{}1", rep("0", n)), if n + 2 <= 1_000_000 { BigExpect::Val(10.0) } else { BigExpect::Any }),
+        "sexa-deg-digits" => (format!("{}:30", rep("1", n)), BigExpect::Any),
+        "sexa-min-digits" => (format!("1:{}5", rep("0", n)), BigExpect::Any),
+        "sexa-frac-digits" => (format!("1:2:3.{}", rep("3", n)), BigExpect::Any),
+        "underscore-digits" => {
+            let e = if n + 1 <= 1_000_000 { BigExpect::Val(rep("1", n + 1).parse().unwrap()) } else { BigExpect::Any };
+            (format!("{}1", rep("1_", n)), e)
+        }
+        "ws-run" => (format!("{}1{}", rep(" ", n), rep("\t", n)), BigExpect::Val(1.0)),
+        "ident-run" => (rep("a", n), BigExpect::Fail),
+        "dot-run" => (rep(".", n), BigExpect::Fail),
+        _ => (format!("1{}", rep(":1", n)), if n >= 3 { BigExpect::Fail } else { BigExpect::Any }),
+    }
+}
+
+fn big_doc(text: &str) -> String {
+    format!("{}\n", vcore::ydoc::dq_escape(text))
+}
+
+fn big_case_json(family: &str, n: usize, target: Target, child: bool) -> Value {
+    json!({"kind": if child { "child" } else { "big" }, "family": family, "n": n, "target": target.name()})
+}
+
+/// Compare an outcome line (`ok:<bits>` / `err:..` / `PANIC:..`) with the expectation.
+fn judge_big(run: &Run, family: &str, n: usize, target: Target, outcome: &str, child: bool, l: &mut Local) {
+    let (_, expect) = big_input(family, n);
+    let case = big_case_json(family, n, target, child);
+    if let Some(p) = outcome.strip_prefix("PANIC:") {
+        vio(run, &format!("C19:panic:{}", panic_site(p)), case, p.to_string());
+        return;
+    }
+    match (&expect, outcome.strip_prefix("ok:")) {
+        (BigExpect::Fail, Some(v)) => {
+            vio(run, &format!("C19:accepted:big:{family}"), case, format!("must be rejected (n = {n}) but evaluated to {v}"));
+        }
+        (BigExpect::Val(x), Some(v)) => {
+            let want = match target {
+                Target::F64 => dump::f64s(*x),
+                Target::F32 => dump::f32s(*x as f32),
+            };
+            // digits families: a lone literal into f32 may also be the direct f32 reading
+            let alt = if target == Target::F32 && matches!(family, "digits" | "frac-digits" | "exp-digits" | "underscore-digits") {
+                big_input(family, n).0.replace('_', "").parse::<f32>().ok().map(dump::f32s)
+            } else {
+                None
+            };
+            if v == want || alt.as_deref() == Some(v) {
+                l.count("big/value_held");
+                run.nontrivial(fnv_parts(&[family.as_bytes(), &n.to_le_bytes(), target.name().as_bytes(), &[child as u8]]));
+            } else {
+                vio(run, &format!("C19:value:{}:big:{family}", target.name()), case, format!("library {v}, expected {want} (n = {n})"));
+            }
+        }
+        (BigExpect::Val(_), None) => {
+            vio(run, &format!("C19:rejected-valid:big:{family}"), case, format!("n = {n}: {outcome}"));
+        }
+        (BigExpect::Fail, None) => {
+            l.count("big/reject_held");
+            run.nontrivial(fnv_parts(&[family.as_bytes(), &n.to_le_bytes(), target.name().as_bytes(), &[child as u8]]));
+        }
+        (BigExpect::Any, _) => l.count("unspecified/big-input-class"),
+    }
+}
+
+fn big_outcome(docu: &str, target: Target) -> String {
+    match lib_eval(docu, Ctx::Root, target, true, true) {
+        Err(p) => format!("PANIC:{p}"),
+        Ok(Ok(Num::F64(v))) => format!("ok:{}", dump::f64s(v)),
+        Ok(Ok(Num::F32(v))) => format!("ok:{}", dump::f32s(v)),
+        Ok(Err(e)) => format!("err:{}", err_label(&e)),
+    }
+}
+
+fn check_big_inprocess(run: &Run, family: &str, n: usize, calib: &Calib, l: &mut Local) {
+    // nesting families beyond 10^4 levels only in the child: if the depth guard were missing the
+    // recursion would exhaust even the 1 GiB worker stack and take the harness down with it
+    if n > 10_000 && matches!(family, "paren-open" | "paren-balanced" | "func-nest" | "mul-nest" | "mixed-nest") {
+        l.count("big/nesting_family_left_to_child_process");
+        return;
+    }
+    let (text, _) = big_input(family, n);
+    let docu = big_doc(&text);
+    if text.len() <= 200_000 && !doc::confirm(&docu, &text, Tag::None, Ctx::Root) {
+        run.inconclusive("generator-invalid: big input not confirmed by the raw parser");
+        return;
+    }
+    for target in [Target::F64, Target::F32] {
+        run.eval();
+        let out = timed(run, Some(calib), docu.len(), family, || big_case_json(family, n, target, false), || big_outcome(&docu, target));
+        judge_big(run, family, n, target, &out, false, l);
+    }
+}
+
+/// `c19 --child <family> <n> <f64|f32>`: evaluate on the main thread (stack = RLIMIT_STACK).
+fn child_main(args: &[String]) -> ! {
+    let family = args.first().map(|s| s.as_str()).unwrap_or("");
+    let n: usize = args.get(1).and_then(|s| s.parse().ok()).unwrap_or(0);
+    let target = if args.get(2).map(|s| s.as_str()) == Some("f32") { Target::F32 } else { Target::F64 };
+    let (text, _) = big_input(family, n);
+    let docu = big_doc(&text);
+    println!("RESULT {}", big_outcome(&docu, target));
+    std::process::exit(0);
+}
+
+fn check_big_child(run: &Run, family: &str, n: usize, target: Target, calib: &Calib, l: &mut Local) {
+    let exe = match std::env::current_exe() {
+        Ok(e) => e,
+        Err(_) => {
+            run.inconclusive("child: current_exe unavailable");
+            return;
+        }
+    };
+    let (text, _) = big_input(family, n);
+    let bound = calib.hard(text.len() + 3);
+    let cpu_limit = bound.ceil() as u64 + 2;
+    let args = vec!["--child".to_string(), family.to_string(), n.to_string(), target.name().to_string()];
+    run.eval();
+    let out = match vcore::obs::run_child(&exe, &args, None, Some(8 << 20), None, Some(cpu_limit), cpu_limit * 3 + 30) {
+        Ok(o) => o,
+        Err(_) => {
+            run.inconclusive("child: spawn failed");
+            return;
+        }
+    };
+    let case = big_case_json(family, n, target, true);
+    run.max("child_max_cpu_ms", ((out.user_s + out.sys_s) * 1e3) as u64);
+    if out.timed_out {
+        run.inconclusive("child: wall-clock watchdog fired");
+        return;
+    }
+    if let Some(sig) = out.signal {
+        if sig == libc::SIGXCPU || (sig == libc::SIGKILL && out.user_s + out.sys_s >= bound) {
+            vio(run, 
+                &format!("C19:cpu-bound-exceeded:{family}"),
+                case,
+                format!("child used {:.1}s CPU (> 10^4 x typical = {bound:.1}s) for {} bytes", out.user_s + out.sys_s, text.len()),
+            );
+        } else if sig == libc::SIGSEGV || sig == libc::SIGABRT || sig == libc::SIGBUS || sig == libc::SIGILL {
+            vio(run, 
+                &format!("C19:child-crash:{family}"),
+                case,
+                format!("child with 8 MiB stack died with signal {sig} (n = {n}); stderr: {}", out.stderr.chars().take(300).collect::<String>()),
+            );
+        } else {
+            run.inconclusive("child: killed by an unrelated signal");
+        }
+        return;
+    }
+    let Some(line) = out.stdout.lines().find_map(|l| l.strip_prefix("RESULT ")) else {
+        run.inconclusive("child: no RESULT line");
+        return;
+    };
+    l.count("child/completed");
+    judge_big(run, family, n, target, line, true, l);
+}
+
+
+// ------------------------------------------------------------------ smoke set in a CPU-limited child
+
+/// A small representative input set evaluated first in a child under RLIMIT_CPU: an
+/// unbounded loop in the evaluator becomes a reported violation (SIGXCPU) instead of
+/// hanging the in-process sections until the wall-clock watchdog (which is no verdict).
+fn smoke_inputs(seed: u64) -> Vec<String> {
+    let mut texts: Vec<(String, Tag)> = Vec::new();
+    let tags = [Tag::None, Tag::Degrees, Tag::Radians];
+    for i in 0..space_size(TOKENS_A.len(), 3) {
+        if i < space_size(TOKENS_A.len(), 2) || i % 5 == 0 {
+            texts.push((nth_string(TOKENS_A, i, 3), tags[i % 3]));
+        }
+    }
+    for i in 0..space_size(TOKENS_B.len(), 3) {
+        if i < space_size(TOKENS_B.len(), 2) || i % 3 == 0 {
+            texts.push((nth_string(TOKENS_B, i, 3), tags[i % 3]));
+        }
+    }
+    for i in 0..150u64 {
+        let mut rng = Rng::stream(seed ^ 0x44, i);
+        texts.push((exprgen::soup(&mut rng), tags[i as usize % 3]));
+    }
+    for i in 0..100u64 {
+        let mut rng = Rng::stream(seed ^ 0x55, i);
+        let k = exprgen::Knobs { func: 2, sexa: 2, special: 1, nl: false };
+        let g = exprgen::gen_expr(&mut rng, 4, &k, false);
+        texts.push((exprgen::mutate(&mut rng, &g.txt), tags[i as usize % 3]));
+        texts.push((g.txt, tags[i as usize % 3]));
+    }
+    for (t, tag) in [("1.5 + 2*(3 - 4/5)", Tag::None), ("deg(8:32:53.2)", Tag::None), ("-0:30:30.5", Tag::None), ("180", Tag::Degrees)] {
+        texts.push((t.to_string(), tag));
+    }
+    texts.into_iter().filter_map(|(t, tag)| build(&t, tag, Ctx::Root, 0)).collect()
+}
+
+/// `c19 --child-smoke <seed> [index]`
+fn smoke_child_main(args: &[String]) -> ! {
+    use std::io::Write;
+    let seed: u64 = args.first().and_then(|s| s.parse().ok()).unwrap_or(1);
+    let only: Option<usize> = args.get(1).and_then(|s| s.parse().ok());
+    let docs = smoke_inputs(seed);
+    let err = std::io::stderr();
+    for (i, d) in docs.iter().enumerate() {
+        if only.is_some_and(|o| o != i) {
+            continue;
+        }
+        let _ = writeln!(err.lock(), "AT {i}");
+        let _ = lib_eval(d, Ctx::Root, Target::F64, true, false);
+        let _ = lib_eval(d, Ctx::Root, Target::F32, true, false);
+    }
+    println!("SMOKE-DONE {}", docs.len());
+    std::process::exit(0);
+}
+
+/// Returns false when the in-process sections must not be started.
+fn run_smoke(run: &Run, only: Option<usize>) -> bool {
+    let Ok(exe) = std::env::current_exe() else {
+        run.inconclusive("smoke: current_exe unavailable");
+        return true;
+    };
+    let docs = smoke_inputs(run.seed);
+    // provisional typical cost (measured on this class of machine: ~1.4 us + 20 ns/byte per call)
+    let provisional = Calib { base_s: 2e-6, per_byte_s: 25e-9 };
+    let typical: f64 = docs.iter().enumerate().filter(|(i, _)| only.is_none_or(|o| o == *i)).map(|(_, d)| 2.0 * provisional.typical(d.len())).sum();
+    let bound = (1e4 * typical).max(20.0);
+    let mut args = vec!["--child-smoke".to_string(), run.seed.to_string()];
+    if let Some(o) = only {
+        args.push(o.to_string());
+    }
+    let limit = bound.ceil() as u64 + 1;
+    let out = match vcore::obs::run_child(&exe, &args, None, Some(8 << 20), None, Some(limit), limit * 3 + 30) {
+        Ok(o) => o,
+        Err(_) => {
+            run.inconclusive("smoke: spawn failed");
+            return true;
+        }
+    };
+    run.evals(2 * docs.len() as u64);
+    run.count("smoke/documents", docs.len() as u64);
+    run.max("smoke/cpu_ms", ((out.user_s + out.sys_s) * 1e3) as u64);
+    let last: Option<usize> = out.stderr.lines().rev().find_map(|l| l.strip_prefix("AT ").and_then(|n| n.parse().ok()));
+    let case = json!({"kind": "smoke", "seed": run.seed, "index": last, "doc": last.and_then(|i| docs.get(i))});
+    if out.stdout.contains("SMOKE-DONE") && out.exit_code == Some(0) {
+        run.count("smoke/completed", 1);
+        return true;
+    }
+    if out.timed_out {
+        run.inconclusive("smoke: wall-clock watchdog fired before the CPU limit");
+        return true;
+    }
+    let cpu = out.user_s + out.sys_s;
+    match out.signal {
+        Some(sig) if sig == libc::SIGXCPU || (sig == libc::SIGKILL && cpu >= bound) => {
+            vio(run, "C19:cpu-bound-exceeded:smoke-set", case, format!("child used {cpu:.1}s CPU on a set whose typical total is {typical:.4}s (bound 10^4 x = {bound:.1}s); last input started: {last:?}"));
+            false
+        }
+        Some(sig) if sig == libc::SIGSEGV || sig == libc::SIGABRT || sig == libc::SIGBUS || sig == libc::SIGILL => {
+            vio(run, "C19:child-crash:smoke-set", case, format!("child with 8 MiB stack died with signal {sig}; last input started: {last:?}; stderr tail: {}", out.stderr.lines().rev().take(3).collect::<Vec<_>>().join(" | ")));
+            false
+        }
+        _ => {
+            run.inconclusive("smoke: child ended without result");
+            true
+        }
+    }
+}
+
+// ------------------------------------------------------------------ cross-build comparison (c19nr)
+
+fn harness_dir() -> PathBuf {
+    vcore::run::verif_root().join("harness")
+}
+
+fn build_nr() -> Result<PathBuf, String> {
+    let h = harness_dir();
+    let tdir = h.join("target-nr");
+    let out = std::process::Command::new("cargo")
+        .current_dir(&h)
+        .env("CARGO_NET_OFFLINE", "true")
+        .args(["build", "--release", "-p", "c19nr", "--target-dir"])
+        .arg(&tdir)
+        .output()
+        .map_err(|e| format!("cannot run cargo: {e}"))?;
+    if !out.status.success() {
+        let err = String::from_utf8_lossy(&out.stderr);
+        let tail: Vec<&str> = err.lines().rev().take(30).collect();
+        return Err(format!("cargo build -p c19nr failed:\n{}", tail.into_iter().rev().collect::<Vec<_>>().join("\n")));
+    }
+    let exe = tdir.join("release").join("c19nr");
+    if !exe.exists() {
+        return Err(format!("{} missing after build", exe.display()));
+    }
+    Ok(exe)
+}
+
+/// Runs c19nr over `docs`; returns (off lines, on lines) or a harness error text.
+fn run_nr(exe: &PathBuf, docs: &[String]) -> Result<(Vec<String>, Vec<String>), String> {
+    let dir = vcore::run::verif_root().join("replays").join("tmp");
+    std::fs::create_dir_all(&dir).map_err(|e| format!("mkdir {}: {e}", dir.display()))?;
+    let path = dir.join(format!("c19-corpus-{}-{:x}.json", std::process::id(), docs.len()));
+    std::fs::write(&path, serde_json::to_string(docs).unwrap()).map_err(|e| format!("write corpus: {e}"))?;
+    let out = vcore::obs::run_child(exe, &[path.display().to_string()], None, None, None, None, 1200);
+    let _ = std::fs::remove_file(&path);
+    let out = out.map_err(|e| format!("spawn c19nr: {e}"))?;
+    if out.timed_out || out.exit_code != Some(0) {
+        return Err(format!("c19nr exit {:?} signal {:?} timed_out {} stderr {}", out.exit_code, out.signal, out.timed_out, out.stderr.chars().take(300).collect::<String>()));
+    }
+    let mut off = vec![String::new(); docs.len()];
+    let mut on = vec![String::new(); docs.len()];
+    let mut probe = None;
+    let mut end = None;
+    for line in out.stdout.lines() {
+        if let Some(p) = line.strip_prefix("PROBE ") {
+            probe = Some(p.to_string());
+        } else if let Some(n) = line.strip_prefix("END ") {
+            end = n.parse::<usize>().ok();
+        } else {
+            let mut it = line.splitn(3, '\t');
+            let (Some(i), Some(mode), Some(rest)) = (it.next(), it.next(), it.next()) else { continue };
+            let Ok(i) = i.parse::<usize>() else { continue };
+            if i < docs.len() {
+                if mode == "off" {
+                    off[i] = rest.to_string();
+                } else {
+                    on[i] = rest.to_string();
+                }
+            }
+        }
+    }
+    if end != Some(docs.len()) {
+        return Err("c19nr output truncated".into());
+    }
+    match probe {
+        Some(p) if p.starts_with("err:") => {}
+        Some(p) => return Err(format!("c19nr evaluates `2*pi` ({p}): it was built WITH the robotics feature (feature unification?) — comparison impossible")),
+        None => return Err("c19nr printed no PROBE line".into()),
+    }
+    Ok((off, on))
+}
+
+fn compare_nr(run: &Run, docs: &[String], off_nr: &[String], on_nr: &[String]) {
+    par_chunks(run, docs.len(), 256, |i, l| {
+        let d = &docs[i];
+        run.evals(3);
+        let here = match catch(|| dump::dump_doc(d, false)) {
+            Ok(s) => s,
+            Err(p) => {
+                vio(run, &format!("C19:panic:{}", panic_site(&p)), json!({"kind": "nr", "doc": d}), p);
+                return;
+            }
+        };
+        l.add("nr/child_evaluations", 6);
+        if here != off_nr[i] {
+            vio(run, 
+                "C19:feature-build-differs:option-off",
+                json!({"kind": "nr", "doc": d}),
+                format!("with feature, option off: {here} ; without feature, option off: {}", off_nr[i]),
+            );
+        } else if on_nr[i] != off_nr[i] {
+            vio(run, 
+                "C19:option-effective-without-feature",
+                json!({"kind": "nr", "doc": d}),
+                format!("without feature, option off: {} ; option on: {}", off_nr[i], on_nr[i]),
+            );
+        } else {
+            l.count("nr/identical");
+            if here.contains("ok:") {
+                l.count("nr/identical_with_ok_outcome");
+            }
+        }
+    });
+}
+
+// ------------------------------------------------------------------ exhaustive spaces
+
+const TOKENS_A: &[&str] = &["3", "0.7", "pi", "+", "-", "*", "/", "(", ")", "deg(", "rad(", "1:30", " "];
+const TOKENS_B: &[&str] = &["1", "5", "_", ".", "e", "-", "+", ":", "60"];
+
+fn space_size(k: usize, max_len: usize) -> usize {
+    (1..=max_len).map(|l| k.pow(l as u32)).sum()
+}
+
+fn nth_string(alpha: &[&str], mut i: usize, max_len: usize) -> String {
+    let k = alpha.len();
+    let mut len = 1;
+    while len <= max_len {
+        let c = k.pow(len as u32);
+        if i < c {
+            break;
+        }
+        i -= c;
+        len += 1;
+    }
+    let mut s = String::new();
+    let mut parts = Vec::with_capacity(len);
+    for _ in 0..len {
+        parts.push(alpha[i % k]);
+        i /= k;
+    }
+    for p in parts.iter().rev() {
+        s.push_str(p);
+    }
+    s
+}
+
+// ------------------------------------------------------------------ replay
+
+fn replay(run: &Run, case: &Value) {
+    let mut l = Local::default();
+    let s = |k: &str| case[k].as_str().unwrap_or("").to_string();
+    match s("kind").as_str() {
+        "expr" => {
+            let text = s("text");
+            let c = ExprCase {
+                text: &text,
+                tag: Tag::from_source(&s("tag")),
+                ctx: Ctx::from_name(&s("ctx")),
+                style: case["style"].as_u64().unwrap_or(0) as u8,
+                unlimited: case["unlimited"].as_bool().unwrap_or(false),
+                family: "replay",
+            };
+            let cal = Calib::measure();
+            check_expr(run, &c, Some(&cal), &mut l);
+        }
+        "plain" => check_plain(run, &s("text"), 0, true, &mut l),
+        "big" => {
+            let cal = Calib::measure();
+            check_big_inprocess(run, &s("family"), case["n"].as_u64().unwrap_or(0) as usize, &cal, &mut l);
+        }
+        "child" => {
+            let cal = Calib::measure();
+            let t = if s("target") == "f32" { Target::F32 } else { Target::F64 };
+            check_big_child(run, &s("family"), case["n"].as_u64().unwrap_or(0) as usize, t, &cal, &mut l);
+        }
+        "nr" => match build_nr().and_then(|exe| run_nr(&exe, &[s("doc")])) {
+            Ok((off, on)) => compare_nr(run, &[s("doc")], &off, &on),
+            Err(e) => {
+                eprintln!("harness error: {e}");
+                std::process::exit(2);
+            }
+        },
+        "smoke" => {
+            run_smoke(run, case["index"].as_u64().map(|i| i as usize));
+        }
+        "rawdoc" => {
+            let d = s("doc");
+            let cal = Calib::measure();
+            check_rawdoc(run, &d, &cal);
+        }
+        k => {
+            eprintln!("harness error: unknown replay kind {k:?}");
+            std::process::exit(2);
+        }
+    }
+    l.flush(run);
+}
+
+/// An arbitrary string as a whole document (not as a confirmed scalar): totality only.
+fn check_rawdoc(run: &Run, d: &str, cal: &Calib) {
+    for target in ["f64", "f32", "any"] {
+        run.eval();
+        let case = || json!({"kind": "rawdoc", "doc": d, "target": target});
+        let r = timed(run, Some(cal), d.len(), "rawdoc", case, || {
+            catch(|| match target {
+                "f64" => serde_saphyr::from_str_with_options::<f64>(d, mk_opts(true, false)).is_ok(),
+                "f32" => serde_saphyr::from_str_with_options::<f32>(d, mk_opts(true, false)).is_ok(),
+                _ => serde_saphyr::from_str_with_options::<dump::Any>(d, mk_opts(true, false)).is_ok(),
+            })
+        });
+        if let Err(p) = r {
+            vio(run, &format!("C19:panic:{}", panic_site(&p)), case(), p);
+        }
+    }
+}
+
+// ------------------------------------------------------------------ main
+
+fn main() {
+    let args: Vec<String> = std::env::args().collect();
+    if args.get(1).map(|s| s.as_str()) == Some("--child") {
+        child_main(&args[2..]);
+    }
+    if args.get(1).map(|s| s.as_str()) == Some("--child-smoke") {
+        vcore::obs::install_quiet_panic_hook();
+        smoke_child_main(&args[2..]);
+    }
+    let run = Run::from_args("C19");
+    // everything on a big stack (reference parser recursion, replay on the main thread)
+    let run = std::thread::Builder::new().stack_size(1 << 30).spawn(move || real_main(run)).unwrap().join();
+    if run.is_err() {
+        eprintln!("harness error: check thread panicked");
+        std::process::exit(2);
+    }
+}
+
+fn mark(run: &Run, what: &str) {
+    run.note(format!("t+{:.1}s: {what} done", run.elapsed_s()));
+}
+
+fn real_main(run: Run) {
+    if let Some(rep) = run.is_replay() {
+        let case = rep["case"].clone();
+        replay(&run, &case);
+        run.finish(Finish::new("replay"));
+    }
+    let tier = run.tier;
+    let seed = run.seed;
+
+    // c19nr build in the background (first build takes about a minute)
+    let nr_build = std::thread::spawn(build_nr);
+
+    // ---- smoke set under RLIMIT_CPU before anything runs in this process
+    if !run_smoke(&run, None) {
+        run.note("smoke set failed in the child: in-process sections skipped (they would hang or crash this process)");
+        flush_violation_counts(&run);
+        run.finish(Finish::new("smoke set only (child process under RLIMIT_CPU / 8 MiB stack)"));
+    }
+    mark(&run, "smoke child");
+
+    let calib = Calib::measure();
+    run.note(format!("cpu calibration: base {:.2} us per call, {:.2} ns per byte", calib.base_s * 1e6, calib.per_byte_s * 1e9));
+
+    // ---- 0. model self-test + library smoke on the README examples (exact documented values)
+    {
+        let mut l = Local::default();
+        let readme: &[(&str, Tag)] = &[
+            ("0.15", Tag::Radians),
+            ("180", Tag::Degrees),
+            ("1 + 2*(3 - 4/5)", Tag::None),
+            ("deg(180)", Tag::None),
+            ("rad(pi)", Tag::None),
+            ("-0:30:30.5", Tag::None),
+            ("8:32:53.2", Tag::Radians),
+            ("8:32:53.2", Tag::Degrees),
+            ("deg(8:32:53.2)", Tag::None),
+            ("2*pi", Tag::None),
+            ("pi/2", Tag::None),
+            ("TAU", Tag::None),
+            ("deg(90)", Tag::Degrees),
+            ("rad(2*pi)", Tag::Degrees),
+            ("deg(30:0:0) + 0.001", Tag::Radians),
+            ("30:0:0 + 90", Tag::Degrees),
+            ("deg(90) + 90", Tag::Degrees),
+            ("rad(1) + pi/2", Tag::Degrees),
+            ("--1", Tag::None),
+            ("3--2", Tag::None),
+            ("3-+2", Tag::None),
+            ("1_000.0", Tag::None),
+            ("1e1_0", Tag::None),
+            ("1__0", Tag::None),
+            ("1_", Tag::None),
+            ("1._0", Tag::None),
+            ("1e_10", Tag::None),
+            ("1 2", Tag::None),
+            ("1pi", Tag::None),
+            ("10:60", Tag::None),
+            ("deg()", Tag::None),
+            ("(1+2", Tag::None),
+        ];
+        for (t, tag) in readme {
+            for ctx in [Ctx::Root, Ctx::Seq, Ctx::Map] {
+                for style in 0..3 {
+                    check_expr(&run, &ExprCase { text: t, tag: *tag, ctx, style, unlimited: false, family: "documented-examples" }, Some(&calib), &mut l);
+                }
+            }
+        }
+        l.flush(&run);
+    }
+
+    // ---- 1. exhaustive token strings
+    let len_a = tier.pick(5, 6);
+    let n_a = space_size(TOKENS_A.len(), len_a);
+    par_chunks(&run, n_a, 512, |i, l| {
+        let text = nth_string(TOKENS_A, i, len_a);
+        for tag in [Tag::None, Tag::Degrees, Tag::Radians] {
+            check_expr(&run, &ExprCase { text: &text, tag, ctx: Ctx::Root, style: 0, unlimited: false, family: "exhaustive-tokens-A" }, None, l);
+        }
+        if i == n_a / 2 + 7 {
+            run.sample(|| json!({"family": "exhaustive-tokens-A", "text": text}));
+        }
+    });
+    mark(&run, "exhaustive tokens A");
+    let len_b = tier.pick(6, 7);
+    let n_b = space_size(TOKENS_B.len(), len_b);
+    par_chunks(&run, n_b, 512, |i, l| {
+        let text = nth_string(TOKENS_B, i, len_b);
+        let tag = if text.contains(':') && i % 2 == 1 { Tag::Radians } else { Tag::None };
+        check_expr(&run, &ExprCase { text: &text, tag, ctx: Ctx::Root, style: 0, unlimited: false, family: "exhaustive-tokens-B" }, None, l);
+    });
+    mark(&run, "exhaustive tokens B");
+
+    // ---- 2. random grammar cases (AST + renderer cross-checked against the reference parser) and mutants
+    let n_rand = tier.pick(400_000, 2_500_000);
+    par_chunks(&run, n_rand, 256, |i, l| {
+        let mut rng = Rng::stream(seed, i as u64);
+        let knobs = match rng.below(4) {
+            0 => exprgen::Knobs { func: 0, sexa: 0, special: 0, nl: false },
+            1 => exprgen::Knobs { func: 3, sexa: 0, special: 1, nl: false },
+            2 => exprgen::Knobs { func: 2, sexa: 3, special: 0, nl: rng.chance(1, 4) },
+            _ => exprgen::Knobs { func: 2, sexa: 1, special: 1, nl: rng.chance(1, 8) },
+        };
+        let depth = rng.range(1, 5);
+        let g = exprgen::gen_expr(&mut rng, depth, &knobs, false);
+        let tag = *rng.pick(&[Tag::None, Tag::None, Tag::None, Tag::None, Tag::Degrees, Tag::Degrees, Tag::Radians, Tag::Radians, Tag::Float, Tag::Other]);
+        let ctx = *rng.pick(&[Ctx::Root, Ctx::Root, Ctx::Seq, Ctx::Map]);
+        let style = *rng.pick(&[0u8, 0, 0, 1, 2]);
+        let unlimited = rng.chance(1, 4);
+        // model self-check: my parser must read my renderer's text back as the same tree
+        match refeval::parse(&g.txt) {
+            refeval::Parsed::Ast(a) if a.strip_parens().shape() == g.ast.strip_parens().shape() => {}
+            refeval::Parsed::Ast(_) => {
+                run.inconclusive("model self-check: parse(render(ast)) != ast");
+                return;
+            }
+            // sexagesimal fields out of range etc. are generated on purpose
+            _ => l.count("generated_reject_or_unspecified"),
+        }
+        check_expr(&run, &ExprCase { text: &g.txt, tag, ctx, style, unlimited, family: "random-grammar" }, Some(&calib), l);
+        if i == 3 || i == 1003 {
+            run.sample(|| json!({"family": "random-grammar", "text": g.txt, "tag": tag.source(), "ctx": ctx.name(), "reference": format!("{:?}", reference(&g.txt, tag).0)}));
+        }
+        // one or two mutants of it
+        for _ in 0..rng.range(1, 2) {
+            let m = exprgen::mutate(&mut rng, &g.txt);
+            check_expr(&run, &ExprCase { text: &m, tag, ctx, style, unlimited, family: "mutant" }, Some(&calib), l);
+            if i == 5 {
+                run.sample(|| json!({"family": "mutant", "of": g.txt, "text": m, "tag": tag.source(), "reference": format!("{:?}", reference(&m, tag).0)}));
+            }
+        }
+    });
+    mark(&run, "random grammar + mutants");
+
+    // ---- 3. targeted must-fail / boundary families
+    {
+        // depth sweep: every depth 1..=300 plus far beyond, four shapes
+        let mut depths: Vec<usize> = (1..=300).collect();
+        depths.extend([400, 512, 1000, 2000]);
+        par_chunks(&run, depths.len(), 4, |i, l| {
+            let d = depths[i];
+            let shapes = [
+                format!("{}7{}", "(".repeat(d), ")".repeat(d)),
+                format!("{}1{}", "2*(".repeat(d), ")".repeat(d)),
+                format!("{}1{}", "(1+".repeat(d), ")".repeat(d)),
+                format!("rad({}3{})", "(".repeat(d - 1), ")".repeat(d - 1)),
+                format!("{}1{}", "deg(".repeat(d), ")".repeat(d)),
+                format!("{}1{}", "-(".repeat(d), ")".repeat(d)),
+            ];
+            for s in &shapes {
+                for tag in [Tag::None, Tag::Degrees] {
+                    check_expr(&run, &ExprCase { text: s, tag, ctx: Ctx::Root, style: 2, unlimited: true, family: "depth-sweep" }, Some(&calib), l);
+                }
+            }
+        });
+        // underscore placements: every insertion of 1..2 underscores into a set of base numbers
+        let bases = ["12", "123", "1.5", "12.34", "1e5", "1e10", "1.5e10", "12:30", "1:2:3.5", "12.5e-10", ".5", "5."];
+        let mut us: Vec<String> = Vec::new();
+        for b in bases {
+            let cs: Vec<char> = b.chars().collect();
+            for p in 0..=cs.len() {
+                let mut s: String = cs[..p].iter().collect();
+                s.push('_');
+                s.extend(cs[p..].iter());
+                us.push(s.clone());
+                let cs2: Vec<char> = s.chars().collect();
+                for q in 0..=cs2.len() {
+                    let mut s2: String = cs2[..q].iter().collect();
+                    s2.push('_');
+                    s2.extend(cs2[q..].iter());
+                    us.push(s2);
+                }
+            }
+        }
+        par_chunks(&run, us.len(), 64, |i, l| {
+            for tag in [Tag::None, Tag::Radians] {
+                check_expr(&run, &ExprCase { text: &us[i], tag, ctx: Ctx::Root, style: 0, unlimited: false, family: "underscore-placement" }, None, l);
+                let wrapped = format!("2*({})", us[i]);
+                check_expr(&run, &ExprCase { text: &wrapped, tag, ctx: Ctx::Root, style: 0, unlimited: false, family: "underscore-placement" }, None, l);
+            }
+        });
+        // sexagesimal field sweep: all minutes/seconds 0..=99
+        par_chunks(&run, 100 * 100, 100, |i, l| {
+            let (m, s) = (i / 100, i % 100);
+            let texts = [format!("7:{m:02}:{s:02}"), format!("-0:{m}:{s}.5"), format!("deg(1:{m:02}:{s:02}.25)"), format!("12:{m:02}")];
+            for (j, t) in texts.iter().enumerate() {
+                let tag = [Tag::None, Tag::Radians, Tag::Degrees][(i + j) % 3];
+                check_expr(&run, &ExprCase { text: t, tag, ctx: Ctx::Root, style: 0, unlimited: false, family: "sexagesimal-fields" }, None, l);
+            }
+        });
+        // unit / tag mixing grid
+        let units = ["deg(90)", "rad(1.5)", "30:15:10", "deg(10:30)", "rad(pi/2)", "deg(45+45)"];
+        let bares = ["90", "pi/2", "0.001", "(1+2)", "tau", "-3"];
+        let mut mix: Vec<String> = Vec::new();
+        for u in units {
+            for b in bares {
+                for op in ["+", "-", "*", "/"] {
+                    mix.push(format!("{u} {op} {b}"));
+                    mix.push(format!("{b}{op}{u}"));
+                    mix.push(format!("({u}{op}{b})*2"));
+                    mix.push(format!("{u} {op} {}", units[(b.len() + op.len()) % units.len()]));
+                    mix.push(format!("{u}{op}{b}{op}{u}"));
+                }
+            }
+            mix.push(u.to_string());
+            mix.push(format!("-{u}"));
+            mix.push(format!("({u})"));
+        }
+        par_chunks(&run, mix.len(), 16, |i, l| {
+            for tag in [Tag::None, Tag::Degrees, Tag::Radians, Tag::Float, Tag::Other] {
+                for ctx in [Ctx::Root, Ctx::Map] {
+                    check_expr(&run, &ExprCase { text: &mix[i], tag, ctx, style: 0, unlimited: false, family: "unit-tag-mixing" }, None, l);
+                }
+            }
+        });
+    }
+
+    mark(&run, "targeted families");
+    // ---- 4. ordinary literals: option on vs off (f32 / f64 / untyped)
+    let mut literal_docs: Vec<String>; // also the corpus for the cross-build dump
+    {
+        let mut toks: Vec<(String, u8, bool)> = Vec::new();
+        for t in corpus::FIXED {
+            toks.push((t.to_string(), 0, false));
+            toks.push((t.to_string(), 2, false));
+            toks.push((t.to_string(), 1, false));
+        }
+        for t in ["1.5", "-0.0", ".inf", "-.INF", ".NaN", "1e3", "16777217", "3.4028235677973366e38", "12", ".5", "1."] {
+            for (a, b) in corpus::PADS {
+                toks.push((format!("{a}{t}{b}"), 2, false));
+            }
+        }
+        let n_lit = tier.pick(60_000, 400_000);
+        let n_wit = tier.pick(15_000, 120_000);
+        let toks_fixed = toks.len();
+        let collected = std::sync::Mutex::new(Vec::<String>::new());
+        par_chunks(&run, toks_fixed + n_lit + n_wit, 128, |i, l| {
+            let keep = |d: Option<String>| {
+                if let Some(d) = d {
+                    collected.lock().unwrap().push(d);
+                }
+            };
+            if i < toks_fixed {
+                let (t, st, w) = &toks[i];
+                check_plain(&run, t, *st, *w, l);
+                keep(build(t, Tag::None, Ctx::Root, *st));
+            } else if i < toks_fixed + n_lit {
+                let mut rng = Rng::stream(seed ^ 0x11, i as u64);
+                let t = corpus::random_literal(&mut rng);
+                check_plain(&run, &t, 0, false, l);
+                if i % 8 == 0 {
+                    keep(build(&t, Tag::None, Ctx::Root, 0));
+                }
+            } else {
+                let mut rng = Rng::stream(seed ^ 0x22, i as u64);
+                let x = corpus::random_positive_f32(&mut rng);
+                for (j, w) in corpus::witnesses_for(x, &mut rng).iter().enumerate() {
+                    l.count("witness/strings");
+                    if let (Ok(a), Ok(b)) = (w.parse::<f32>(), w.parse::<f64>())
+                        && a.to_bits() != (b as f32).to_bits()
+                    {
+                        l.count("witness/effective (direct f32 reading != f64 reading rounded to f32)");
+                    }
+                    check_plain(&run, w, 0, true, l);
+                    if (i + j) % 16 == 0 {
+                        keep(build(w, Tag::None, Ctx::Root, 0));
+                    }
+                    if i == toks_fixed + n_lit + 1 && j == 1 {
+                        run.sample(|| json!({"family": "double-rounding-witness", "f32_below": format!("{x:e}"), "text": w}));
+                    }
+                }
+            }
+        });
+        literal_docs = collected.into_inner().unwrap();
+        literal_docs.sort();
+        literal_docs.dedup();
+    }
+
+    mark(&run, "plain literals on/off");
+    // ---- 5. totality: token soup as scalar and as whole document, with CPU bound
+    let n_soup = tier.pick(150_000, 1_000_000);
+    par_chunks(&run, n_soup, 256, |i, l| {
+        let mut rng = Rng::stream(seed ^ 0x33, i as u64);
+        let s = exprgen::soup(&mut rng);
+        let tag = *rng.pick(&[Tag::None, Tag::None, Tag::Degrees, Tag::Radians, Tag::Other]);
+        check_expr(&run, &ExprCase { text: &s, tag, ctx: *rng.pick(&[Ctx::Root, Ctx::Seq, Ctx::Map]), style: *rng.pick(&[0u8, 1, 2]), unlimited: rng.chance(1, 4), family: "soup" }, Some(&calib), l);
+        if rng.chance(1, 3) {
+            l.count("rawdoc_cases");
+            check_rawdoc(&run, &s, &calib);
+        }
+        if i == 11 {
+            run.sample(|| json!({"family": "soup", "text": s, "tag": tag.source()}));
+        }
+    });
+    mark(&run, "soup");
+
+    // ---- 6. long / deep inputs: in-process with CPU bound, and in an 8 MiB-stack child
+    {
+        let sizes: &[usize] = tier.pick(&[1_000, 100_000, 1_000_000][..], &[10, 257, 1_000, 10_000, 100_000, 999_999, 1_000_000, 1_000_001, 2_000_000][..]);
+        let jobs: Vec<(&str, usize)> = BIG_FAMILIES.iter().flat_map(|f| sizes.iter().map(move |n| (*f, *n))).collect();
+        par_chunks(&run, jobs.len(), 1, |i, l| {
+            let (f, n) = jobs[i];
+            check_big_inprocess(&run, f, n, &calib, l);
+        });
+        let child_sizes: &[usize] = tier.pick(&[100_000, 1_000_000][..], &[300, 10_000, 100_000, 1_000_000, 2_000_000][..]);
+        let cjobs: Vec<(&str, usize, Target)> = BIG_FAMILIES
+            .iter()
+            .flat_map(|f| child_sizes.iter().map(move |n| (*f, *n)))
+            .enumerate()
+            .map(|(k, (f, n))| (f, n, if k % 3 == 2 { Target::F32 } else { Target::F64 }))
+            .collect();
+        par_chunks(&run, cjobs.len(), 1, |i, l| {
+            let (f, n, t) = cjobs[i];
+            check_big_child(&run, f, n, t, &calib, l);
+        });
+    }
+
+    mark(&run, "long/deep inputs (in-process + child)");
+    // ---- 7. cross-build comparison
+    {
+        // corpus: literal documents + expressions (errors in both builds when the option is off) + structured documents
+        let mut docs = literal_docs;
+        for t in ["2*pi", "deg(180)", "1 + 2*(3 - 4/5)", "12:30", "1_000", "rad(pi)", "-0:30:30.5", "(1)", "pi", "inf", "1/2"] {
+            for tag in [Tag::None, Tag::Degrees, Tag::Radians, Tag::Float] {
+                for ctx in [Ctx::Root, Ctx::Seq, Ctx::Map] {
+                    if let Some(d) = build(t, tag, ctx, 0) {
+                        docs.push(d);
+                    }
+                }
+            }
+        }
+        for t in ["1.5", "180", ".inf", "1e3", "-0.0", "3.4028235677973366e38"] {
+            for tag in [Tag::Degrees, Tag::Radians, Tag::Float, Tag::Other] {
+                for ctx in [Ctx::Root, Ctx::Seq, Ctx::Map] {
+                    if let Some(d) = build(t, tag, ctx, 0) {
+                        docs.push(d);
+                    }
+                }
+            }
+        }
+        docs.extend(["a: 1.5\nb: [2*pi, !degrees 90, 1:30]\n", "- 1.5\n- deg(90)\n- .nan\n", "[1.5, 2.5e3, .inf]\n", "{x: 0.1, y: !radians 0.2}\n"].map(String::from));
+        docs.sort();
+        docs.dedup();
+        run.count("nr/corpus_documents", docs.len() as u64);
+        match nr_build.join().unwrap_or_else(|_| Err("build thread panicked".into())) {
+            Err(e) => {
+                eprintln!("harness error: {e}");
+                std::process::exit(2);
+            }
+            Ok(exe) => match run_nr(&exe, &docs) {
+                Err(e) => {
+                    eprintln!("harness error: {e}");
+                    std::process::exit(2);
+                }
+                Ok((off, on)) => compare_nr(&run, &docs, &off, &on),
+            },
+        }
+    }
+
+    mark(&run, "cross-build comparison");
+    let scope = format!(
+        "(a) every concatenation of 1..={len_a} tokens from {TOKENS_A:?} under tags none/!degrees/!radians, targets f64+f32; \
+         (b) every concatenation of 1..={len_b} tokens from {TOKENS_B:?} (number / underscore / exponent / sexagesimal lexing); \
+         (c) every parenthesis / function nesting depth 1..=300 in six shapes; (d) every insertion of one or two underscores into 12 base numbers; \
+         (e) every minutes x seconds pair 0..=99 x 0..=99 in four sexagesimal shapes; (f) the unit x bare-term x operator x tag grid"
+    );
+    let fin = Finish::new(
+        "a case is non-trivial when the reference model gives a verdict (value or documented error) that the library met and the text \
+         contains >= 1 operator / parenthesis / function / sexagesimal form, or when it is a double-rounding witness (decimal string within \
+         one f64 half-ulp of an f32 midpoint) compared on vs off, or a long/deep family member with a definite expectation; distinct by \
+         hash(document, target, option set)",
+    )
+    .exhaustive(scope)
+    .assume("std's f64/f32 FromStr is the correctly rounded reading of a decimal literal (C06 checks that independently)")
+    .assume("README: untagged hh:mm[:ss] is a time in seconds; under !degrees/!radians it is an angle in degrees delivered in radians; deg(x) = x*(pi/180) up to the order of the two operations")
+    .assume("unspecified (no verdict): nested unit functions, inf/nan/infinity identifiers, sexagesimal inside rad() or under other tags, bare scale factors of unitized values under !degrees, blanks between unary signs, fields wider than 2 digits, rejections at nesting depth 65..=256, > 10^6 digits")
+    .tool("cargo build -p c19nr --target-dir target-nr (serde-saphyr without the robotics feature)")
+    .min_nontrivial(if tier == Tier::Quick { 100_000 } else { 1_000_000 });
+    flush_violation_counts(&run);
+    run.finish(fin);
 }
